@@ -16,11 +16,14 @@ Variable has_prot : Z -> bool.
 Variable mf : Z -> V.
 Variable sf : Z -> V.
 Variable pre : bool.
+Variable ftag : Z -> Z.
+Variable sc0 : Z -> option (Z * V).
 Variable reqs : Z -> req.
+Hypothesis sc0_ok : forall k g x, sc0 k = Some (g, x) -> g = ftag k -> x = sf k.
 
-Notation step := (step V base over1 over2 has_prot mf sf).
-Notation run := (run V base over1 over2 has_prot mf sf).
-Notation init := (init V base pre).
+Notation step := (step V base over1 over2 has_prot mf sf ftag).
+Notation run := (run V base over1 over2 has_prot mf sf ftag).
+Notation init := (init V base pre sc0).
 Notation alone := (alone V base over1 over2 has_prot mf sf).
 Notation tstate := (tstate V).
 
@@ -151,10 +154,10 @@ Lemma quiescent_all_served : forall sched s,
   forall t, tpc (thr s t) = Done /\ out (thr s t) = alone (reqs t).
 Proof.
   intros sched s H Hq t.
-  assert (Hr : reach V base over1 over2 has_prot mf sf pre reqs s) by (now exists sched).
+  assert (Hr : reach V base over1 over2 has_prot mf sf pre ftag sc0 reqs s) by (now exists sched).
   destruct (pc_done_dec (tpc (thr s t))) as [Hd|Hn].
-  - split; auto. apply (no_interference V base over1 over2 has_prot mf sf pre reqs); auto.
-  - destruct (no_deadlock V base over1 over2 has_prot mf sf pre reqs s t Hr Hn) as [u Hu].
+  - split; auto. apply (no_interference V base over1 over2 has_prot mf sf pre ftag sc0 reqs sc0_ok); auto.
+  - destruct (no_deadlock V base over1 over2 has_prot mf sf pre ftag sc0 reqs sc0_ok s t Hr Hn) as [u Hu].
     rewrite Hq in Hu. congruence.
 Qed.
 
